@@ -19,7 +19,7 @@ RULE = ("(a) vector syntax on a full grid start x step x end of decimals (steps 
 ASSUMPTIONS = ["vector steps are >= 0.001 and values have <= 3 decimals (the docstring warns about round-off below 1e-4)",
                "the reference interpreter (vmon.refcli) encodes DESIGN.md appendix B"]
 REQUIRED_COUNTERS = ["vector_cases", "date_cases", "reject_inproc", "reject_subproc", "semantic_lines", "order_variants",
-                     "config_variants", "list_checks"]
+                     "config_variants", "multi_config_variants", "list_checks"]
 ANCHOR_FUNCS = ["util.parse_numbers", "driver.run"]
 TIMEOUT = {"quick": 1500, "thorough": 7200}
 
@@ -380,7 +380,30 @@ def run_semantic(desc, ctx):
                 for g in g2[half:]:
                     f.write(" ".join(g) + "\n")
             flat3 = [x for g in g2[:half] for x in g]
-            o3 = runner.run_cli(paths + flat3 + ["--config", cfg])
+            cfgargs = ["--config", cfg]
+            if len(g2) - half >= 2 and rng.random() < 0.6:
+                # the flag can appear multiple times: spread the same options over two (or three) files
+                cut = half + (len(g2) - half) // 2
+                cfg2 = os.path.join(d, "cfgb%d.txt" % ctx.evaluations)
+                with open(cfg, "w") as f:
+                    for g in g2[half:cut]:
+                        f.write(" ".join(g) + "\n")
+                with open(cfg2, "w") as f:
+                    f.write("\n".join(" ".join(g) for g in g2[cut:]) + "\n")
+                cfgargs = ["--config", cfg, "--config", cfg2]
+                if rng.random() < 0.3:
+                    cfg3 = os.path.join(d, "cfgc%d.txt" % ctx.evaluations)
+                    open(cfg3, "w").write("\n")
+                    cfgargs += ["--config", cfg3]
+                ctx.count("multi_config_variants")
+            pos = rng.choice(["end", "start", "middle"])
+            if pos == "end":
+                argv3 = paths + flat3 + cfgargs
+            elif pos == "start":
+                argv3 = cfgargs + paths + flat3
+            else:
+                argv3 = paths + cfgargs + flat3
+            o3 = runner.run_cli(argv3)
             ctx.count("config_variants")
             ctx.case("sem|%s|config" % "+".join(optnames), True)
             if o3.status != o.status or runner.parse_csv(o3.stdout) != (h, rows):
